@@ -8,18 +8,21 @@ from props.c01 import first_free, py_slots
 TITLE = "Reconciliation converges to exactly the desired pods and then goes quiet"
 TECHNIQUE = ("Coq proof over the reconcile + environment model: a converged snapshot is a fixed point (no pod/claim write, all oracles); a settled snapshot whose "
              "plan is empty is converged (no stuck state); a fair round strictly decreases the measure mu while the plan is non-empty, so the pod phase converges "
-             "within mu(pods) rounds from every well-formed snapshot (TerminationProofs.v). Tie: histories of the real controller (random interleavings of "
+             "within mu(pods) rounds from every well-formed snapshot (TerminationProofs.v); in a world satisfying the decidable condition quietb a reconcile issues no "
+             "write at all (QuietProofs.v). Tie: histories of the real controller (random interleavings of "
              "reconcile, kubelet, cache lag, faults, edits that stop; then a fair suffix) compared with the environment model per op inside coqc; the abstract "
              "round compared with the full model's round inside coqc; convergence monitor on the implementation")
 ASSUMPTIONS = [
     "PARTIAL: the step from the full reconcile model's round to the abstract round of TerminationProofs.v is evaluated inside coqc (family C02/round), not proved; "
-    "quietness of status / revision writes at the fixed point is decided by the monitor on every generated history, not proved",
+    "that a fair history ends in a world satisfying quietb (hypothesis of C02_quiet_world_no_write) is evaluated inside coqc on every final world (family C02/quiet) "
+    "and decided on the implementation by the monitor (last two reconciles write nothing), not proved",
     "API-server, kubelet and informer-cache semantics are modelled (Env.v, World.v), validated per op against the fake clientsets + harness reactors",
     "premises of the property (WF): valid defaulted spec (RollingUpdate carries a partition), canonical member names, no unclaimable pod holding a desired name, "
     "not paused / deleting, no terminal-phase pod outside the desired set",
 ]
 IMPORTS = rc.IMPORTS + ["Env"]
 ROUND_IMPORTS = IMPORTS + ["TerminationProofs", "RoundCheck"]
+QUIET_IMPORTS = IMPORTS + ["QuietProofs"]
 ROUND_OPS = 2 + 12 + 12      # refresh, reconcile, gone x names, settle x names
 KEV = {"run": "KRun", "ready": "KReady", "unready": "KUnready", "fail": "KFail", "succeed": "KSucceed", "gone": "KGone", "settle": "KSettle"}
 
@@ -252,6 +255,7 @@ def run(ctx, depth):
                 op["ev"] = "settle"
     outs = core.run_harness_parallel("reconcile", [{k: v for k, v in sc.items() if not k.startswith("_")} for sc in scs], shards=16, timeout=1800)
     terms, idx = [], []
+    premise_out = set()
     for i, (sc, out) in enumerate(zip(scs, outs)):
         ctx.evaluations += 1
         ctx.count("family:history")
@@ -264,7 +268,10 @@ def run(ctx, depth):
         bad = mon_history(sc, out)
         if bad == ["PREMISE"]:
             ctx.count("outside-fairness-premise (terminal-phase pod outside the desired set, ordered policy)")
+            premise_out.add(i)
             bad = []
+        if bad:
+            premise_out.add(i)
         if bad:
             ctx.violations.append({"family": "C02/history", "input": {k: v for k, v in sc.items() if not k.startswith("_")},
                                    "observed": {"final": out["final"], "last_reconciles": recs[-2:]}, "clauses": bad,
@@ -330,6 +337,23 @@ def run(ctx, depth):
     ctx.families["C02/round"] = {"worlds": len(rterms), "observed_in_histories": n_obs, "synthetic_settled": len(rterms) - n_obs, "compared (inside the theorem's hypotheses)": len(rterms) - len(rskip),
                                  "skipped (not settled / not well-formed)": len(rskip) - len(rbad), "mismatches": len(rbad)}
     ctx.count("round-worlds-compared", len(rterms) - len(rskip))
+    # the hypothesis of C02_quiet_world_no_write on the worlds the real controller ended in: quietb must hold there
+    qterms, qidx = [], []
+    for i, (sc, out) in enumerate(zip(scs, outs)):
+        if i in premise_out or out["final"].get("set") is None:
+            continue
+        base = copy.deepcopy(sc["api"]["set"])
+        base["rolling"] = {"partition": sc["_partition_final"]}
+        qterms.append("(%s, %s)" % (rc.r_hashes(rc.hashes_of(out)), rc.r_world(dump_world(out["final"], base))))
+        qidx.append(i)
+    qbad = core.coq_mismatches("C02_quiet", QUIET_IMPORTS, "(list ((Z * Z) * string) * world)%type",
+                               "(fun c => quietb (fst c) (snd c) (snd c))", qterms, shard_size=8, timeout=1500)
+    for j in qbad[:4]:
+        i = qidx[j]
+        ctx.corr_breaks.append({"family": "C02/quiet", "input": {k: v for k, v in scs[i].items() if not k.startswith("_")},
+                                "model": "quietb is false on the final world of the history, where the implementation is quiet",
+                                "final": outs[i]["final"]})
+    ctx.families["C02/quiet"] = {"final_worlds": len(qterms), "quietb_false": len(qbad)}
     mm = core.coq_mismatches("C02_hist", IMPORTS, "hist_case", "hist_check", terms, shard_size=2, timeout=1500)
     for j in mm[:6]:
         i = idx[j]
